@@ -176,48 +176,8 @@ func runC08(e *Env) {
 	r.Check(bs[0].Call.Args[0] == insts && insts != nil, "E3.chain", "LoadFilter/2-encode", p.Pos(bs[0].Pos()), "bpf.Assemble receives exactly the slice returned by Policy.Assemble", "bpf.Assemble does not receive the slice returned by Policy.Assemble")
 	links++
 	raw := flow.ResultN(bs[0], 0)
-	// link 3: the copy function
-	var cp *ssa.Call
-	for _, c := range flow.Calls(fn) {
-		call, ok := c.(*ssa.Call)
-		if !ok || len(call.Call.Args) != 1 || call.Call.Args[0] != raw {
-			continue
-		}
-		if cal := flow.Callee(call); cal != nil && cal.Pkg != nil && cal.Pkg.Pkg.Path() == load.PkgRoot {
-			cp = call
-		}
-	}
-	if cp == nil {
-		r.Bad("E3.chain", "LoadFilter/3-copy", p.Pos(bs[0].Pos()), "the raw instructions returned by bpf.Assemble are not passed to the sock_filter conversion")
-		return
-	}
-	r.OK("E3.chain", "LoadFilter/3-copy", p.Pos(cp.Pos()), "the sock_filter conversion receives exactly the slice returned by bpf.Assemble")
-	links++
-	checkSockFilterCopy(e, p, flow.Callee(cp))
-	S := ssa.Value(cp)
-	// S must only be measured and addressed at [0]
-	for _, ref := range *cp.Referrers() {
-		switch x := ref.(type) {
-		case *ssa.Call:
-			if bi, ok := x.Call.Value.(*ssa.Builtin); ok && bi.Name() == "len" {
-				continue
-			}
-			r.Bad("E3.chain", "LoadFilter/3-copy/untouched", p.Pos(x.Pos()), "the sock_filter slice is passed to another call before installation")
-		case *ssa.IndexAddr:
-			if k, ok := flow.ConstInt(x.Index); !ok || k != 0 {
-				r.Bad("E3.chain", "LoadFilter/3-copy/untouched", p.Pos(x.Pos()), "the sock_filter slice is addressed at an index other than 0")
-			}
-			for _, r2 := range *x.Referrers() {
-				if st, ok := r2.(*ssa.Store); ok && st.Addr == x {
-					r.Bad("E3.chain", "LoadFilter/3-copy/untouched", p.Pos(st.Pos()), "an element of the sock_filter slice is overwritten before installation")
-				}
-			}
-		case *ssa.DebugRef:
-		default:
-			r.Bad("E3.chain", "LoadFilter/3-copy/untouched", p.Pos(ref.Pos()), fmt.Sprintf("the sock_filter slice is used by %T before installation", ref))
-		}
-	}
-	// link 4: SockFprog literal
+	// links 3-5 are followed backwards from the installation call, through helper functions of the module (a helper
+	// with a single return statement is looked through; a parameter is mapped to the caller's argument)
 	ws := callsToFn(fn, m.seccompW)
 	if len(ws) != 1 {
 		r.Unknown("E3.chain", "LoadFilter/seccomp-call", p.Pos(fn.Pos()), fmt.Sprintf("expected one call to the seccomp wrapper, found %d", len(ws)))
@@ -231,20 +191,29 @@ func runC08(e *Env) {
 	op, okop := flow.ConstInt(w.Call.Args[0])
 	r.Check(okop && uint64(op) == e.Oracle().Consts["SECCOMP_SET_MODE_FILTER"], "E3.chain", "LoadFilter/5-op", p.Pos(w.Pos()), "operation is SECCOMP_SET_MODE_FILTER (1)", fmt.Sprintf("the seccomp operation is %d, want SECCOMP_SET_MODE_FILTER", op))
 	links++
-	ptr := flow.StripConv(w.Call.Args[2])
+	ptr, pctx := through(w.Call.Args[2], nil)
 	al, isAlloc := ptr.(*ssa.Alloc)
 	if !isAlloc || !isNamed(al.Type().Underlying().(*types.Pointer).Elem(), "syscall", "SockFprog") {
-		r.Bad("E3.chain", "LoadFilter/4-fprog", p.Pos(w.Pos()), "argument 3 of the wrapper is not the address of a syscall.SockFprog built in LoadFilter")
+		r.Bad("E3.chain", "LoadFilter/4-fprog", p.Pos(w.Pos()), "argument 3 of the wrapper is not the address of a syscall.SockFprog built by LoadFilter (directly or in a helper)")
 		return
+	}
+	// the literal is complete before it leaves its function: every field store dominates the installation call, or (in
+	// a helper) the helper's return
+	var before ssa.Instruction = w
+	if al.Parent() != fn {
+		rets := flow.Returns(al.Parent())
+		if len(rets) != 1 {
+			r.Unknown("E3.chain", "LoadFilter/4-fprog", p.Pos(al.Pos()), "the helper that builds the SockFprog has more than one return")
+			return
+		}
+		before = rets[0]
 	}
 	var lenSt, filtSt []*ssa.Store
 	for _, ref := range *al.Referrers() {
 		fa, ok := ref.(*ssa.FieldAddr)
 		if !ok {
-			if _, isConv := ref.(*ssa.Convert); isConv {
-				continue
-			}
-			if _, isDbg := ref.(*ssa.DebugRef); isDbg {
+			switch ref.(type) {
+			case *ssa.Convert, *ssa.DebugRef, *ssa.Return:
 				continue
 			}
 			r.Bad("E3.chain", "LoadFilter/4-fprog/escape", p.Pos(ref.Pos()), fmt.Sprintf("the SockFprog is used by %T", ref))
@@ -252,8 +221,8 @@ func runC08(e *Env) {
 		}
 		name := al.Type().Underlying().(*types.Pointer).Elem().Underlying().(*types.Struct).Field(fa.Field).Name()
 		for _, r2 := range *fa.Referrers() {
-			if st, ok := r2.(*ssa.Store); ok && st.Addr == fa {
-				if !flow.InstrDominates(st, w) {
+			if st, ok := r2.(*ssa.Store); ok && st.Addr == ssa.Value(fa) {
+				if !flow.InstrDominates(st, before) {
 					r.Bad("E3.chain", "LoadFilter/4-fprog/"+name, p.Pos(st.Pos()), "field written on a path that does not precede the installation")
 				}
 				switch name {
@@ -265,6 +234,21 @@ func runC08(e *Env) {
 			}
 		}
 	}
+	// the pointer that reaches the wrapper in LoadFilter is not used for anything else in between
+	if al.Parent() != fn {
+		if hc, ok := flow.StripConv(w.Call.Args[2]).(*ssa.Call); ok {
+			for _, ref := range *hc.Referrers() {
+				switch x := ref.(type) {
+				case *ssa.Convert, *ssa.DebugRef, *ssa.ChangeType:
+				default:
+					if x != ssa.Instruction(w) {
+						r.Bad("E3.chain", "LoadFilter/4-fprog/escape", p.Pos(ref.Pos()), fmt.Sprintf("the SockFprog pointer is used by %T before installation", ref))
+					}
+				}
+			}
+		}
+	}
+	var S ssa.Value
 	okLen := len(lenSt) == 1
 	if okLen {
 		v := flow.StripConv(lenSt[0].Val)
@@ -272,14 +256,19 @@ func runC08(e *Env) {
 		okLen = isCall
 		if okLen {
 			bi, isB := c.Call.Value.(*ssa.Builtin)
-			okLen = isB && bi.Name() == "len" && c.Call.Args[0] == S
+			okLen = isB && bi.Name() == "len"
+			if okLen {
+				S = c.Call.Args[0]
+			}
 		}
 	}
+	cp, _ := S.(*ssa.Call)
+	okLen = okLen && cp != nil && flow.Callee(cp) != nil && flow.Callee(cp).Pkg != nil && flow.Callee(cp).Pkg.Pkg.Path() == load.PkgRoot
 	r.Check(okLen, "E3.chain", "LoadFilter/4-fprog/Len", p.Pos(al.Pos()), "Len = uint16(len(S)) of the converted slice S", "SockFprog.Len is not len() of the converted instruction slice (a shorter or longer program would be installed)")
 	okF := len(filtSt) == 1
 	if okF {
 		ia, isIA := filtSt[0].Val.(*ssa.IndexAddr)
-		okF = isIA && ia.X == S
+		okF = isIA && S != nil && ia.X == S
 		if okF {
 			k, isK := flow.ConstInt(ia.Index)
 			okF = isK && k == 0
@@ -287,10 +276,97 @@ func runC08(e *Env) {
 	}
 	r.Check(okF, "E3.chain", "LoadFilter/4-fprog/Filter", p.Pos(al.Pos()), "Filter = &S[0] of the same slice S", "SockFprog.Filter is not &S[0] of the converted instruction slice")
 	links++
+	if !okLen {
+		return
+	}
+	// link 3: S is the conversion of exactly the slice returned by bpf.Assemble
+	var src ssa.Value
+	if len(cp.Call.Args) == 1 {
+		src, _ = through(cp.Call.Args[0], pctx)
+	}
+	if src == nil || src != raw {
+		r.Bad("E3.chain", "LoadFilter/3-copy", p.Pos(cp.Pos()), "the raw instructions returned by bpf.Assemble are not what the sock_filter conversion receives")
+		return
+	}
+	r.OK("E3.chain", "LoadFilter/3-copy", p.Pos(cp.Pos()), "the sock_filter conversion receives exactly the slice returned by bpf.Assemble")
+	links++
+	checkSockFilterCopy(e, p, flow.Callee(cp))
+	// S must only be measured and addressed at [0]
+	for _, ref := range *cp.Referrers() {
+		switch x := ref.(type) {
+		case *ssa.Call:
+			if bi, ok := x.Call.Value.(*ssa.Builtin); ok && bi.Name() == "len" {
+				continue
+			}
+			r.Bad("E3.chain", "LoadFilter/3-copy/untouched", p.Pos(x.Pos()), "the sock_filter slice is passed to another call before installation")
+		case *ssa.IndexAddr:
+			if k, ok := flow.ConstInt(x.Index); !ok || k != 0 {
+				r.Bad("E3.chain", "LoadFilter/3-copy/untouched", p.Pos(x.Pos()), "the sock_filter slice is addressed at an index other than 0")
+			}
+			for _, r2 := range *x.Referrers() {
+				if st, ok := r2.(*ssa.Store); ok && st.Addr == ssa.Value(x) {
+					r.Bad("E3.chain", "LoadFilter/3-copy/untouched", p.Pos(st.Pos()), "an element of the sock_filter slice is overwritten before installation")
+				}
+			}
+		case *ssa.DebugRef:
+		default:
+			r.Bad("E3.chain", "LoadFilter/3-copy/untouched", p.Pos(ref.Pos()), fmt.Sprintf("the sock_filter slice is used by %T before installation", ref))
+		}
+	}
 	checkSeccompWrapper(e, m, "E3.chain")
 	r.Count("chain links checked", links)
 	r.Floor("E3.chain(links)", links, 5)
 	r.Note("uint16(len(S)) is unguarded: a program of more than 65535 instructions would be truncated in Len, but such a program is rejected by the kernel (BPF_MAXINSNS 4096) before this matters")
+}
+
+// through follows a value backwards through helper functions of the module: the result of a call to a helper with a
+// single return statement is that statement's value (in the helper's context); a parameter is the caller's argument.
+// ctx is the stack of calls entered (innermost last).
+func through(v ssa.Value, ctx []*ssa.Call) (ssa.Value, []*ssa.Call) {
+	for i := 0; i < 16; i++ {
+		v = flow.StripConv(v)
+		switch x := v.(type) {
+		case *ssa.Call:
+			cal := flow.Callee(x)
+			if cal == nil || cal.Pkg == nil || !strings.HasPrefix(cal.Pkg.Pkg.Path(), load.Module) || len(cal.Blocks) == 0 {
+				return v, ctx
+			}
+			rets := flow.Returns(cal)
+			if len(rets) != 1 || len(flow.RetResults(rets[0])) != 1 {
+				return v, ctx
+			}
+			// only helpers that merely build the value: not the conversion itself (it has a loop)
+			for _, b := range cal.Blocks {
+				for _, sx := range b.Succs {
+					if sx.Dominates(b) {
+						return v, ctx
+					}
+				}
+			}
+			ctx = append(append([]*ssa.Call{}, ctx...), x)
+			v = flow.RetResults(rets[0])[0]
+		case *ssa.Parameter:
+			if len(ctx) == 0 {
+				return v, ctx
+			}
+			top := ctx[len(ctx)-1]
+			cal := flow.Callee(top)
+			idx := -1
+			for k, q := range cal.Params {
+				if q == x {
+					idx = k
+				}
+			}
+			if cal != x.Parent() || idx < 0 || idx >= len(top.Call.Args) {
+				return v, ctx
+			}
+			v = top.Call.Args[idx]
+			ctx = ctx[:len(ctx)-1]
+		default:
+			return v, ctx
+		}
+	}
+	return v, ctx
 }
 
 func isNamed(t types.Type, pkg, name string) bool {
@@ -363,129 +439,146 @@ func checkSockFilterCopy(e *Env, p *load.Program, fn *ssa.Function) {
 		r.Unknown(rule, key, pos, "more than one return")
 		return
 	}
-	acc, ok := flow.RetResults(rets[0])[0].(*ssa.Phi)
-	if !ok || len(acc.Edges) != 2 {
-		r.Bad(rule, key+"/accumulator", pos, "the result is not the loop accumulator")
-		return
-	}
-	H := acc.Block()
-	var app *ssa.Call
-	initOK := false
-	for _, ed := range acc.Edges {
-		switch x := ed.(type) {
-		case *ssa.MakeSlice:
-			if k, ok := flow.ConstInt(x.Len); ok && k == 0 {
-				initOK = true
-			}
-		case *ssa.Const:
-			initOK = x.IsNil()
-		case *ssa.Call:
-			if bi, ok := x.Call.Value.(*ssa.Builtin); ok && bi.Name() == "append" && x.Call.Args[0] == acc {
-				app = x
-			}
+	result := flow.RetResults(rets[0])[0]
+	// exactly one loop, over the parameter, visiting every index once in order, with an unconditional body
+	var loop *flow.CountedLoop
+	nLoops := 0
+	for _, l := range flow.CountedLoops(fn) {
+		nLoops++
+		if l.Over == ssa.Value(fn.Params[0]) {
+			loop = l
 		}
 	}
-	if !initOK || app == nil {
-		r.Bad(rule, key+"/accumulator", pos, "the accumulator does not start empty and grow by append(acc, x) per iteration")
-		return
-	}
-	B := app.Block()
-	// loop shape: H -> B -> H, B has no other successor/predecessor; H's condition is idx+1 < len(param)
-	shape := len(B.Succs) == 1 && B.Succs[0] == H && len(B.Preds) == 1 && B.Preds[0] == H
-	var idxNext ssa.Value
-	if ifi, ok := flow.LastIf(H); ok && shape {
-		bo, ok := ifi.Cond.(*ssa.BinOp)
-		shape = ok && bo.Op == token.LSS && H.Succs[0] == B
-		if shape {
-			idxNext = bo.X
-			lc, ok := bo.Y.(*ssa.Call)
-			shape = ok
-			if shape {
-				bi, ok := lc.Call.Value.(*ssa.Builtin)
-				shape = ok && bi.Name() == "len" && lc.Call.Args[0] == fn.Params[0]
-			}
-			if shape {
-				add, ok := idxNext.(*ssa.BinOp)
-				shape = ok && add.Op == token.ADD
-				if shape {
-					ph, ok := add.X.(*ssa.Phi)
-					one, ok1 := flow.ConstInt(add.Y)
-					shape = ok && ok1 && one == 1 && ph.Block() == H
-					if shape {
-						for i, ed := range ph.Edges {
-							if H.Preds[i] == B {
-								shape = shape && ed == idxNext
-							} else {
-								k, okk := flow.ConstInt(ed)
-								shape = shape && okk && k == -1
-							}
-						}
-					}
+	shape := loop != nil && nLoops == 1 && loop.Unconditional() && flow.G(fn).Dominates(loop.Exit, rets[0].Block()) && !loop.Contains(rets[0].Block())
+	if shape {
+		// no other loop of any kind: every back edge of the function belongs to this loop
+		g := flow.G(fn)
+		for _, b := range fn.Blocks {
+			for _, sx := range g.Succs(b) {
+				if g.Dominates(sx, b) && sx != loop.Header {
+					shape = false
 				}
 			}
 		}
-	} else {
-		shape = false
 	}
-	// the return must be on the loop exit
-	shape = shape && rets[0].Block() == H.Succs[1]
-	r.Check(shape, rule, key+"/loop", pos, "a single range loop over the parameter whose body has no branch: exactly one iteration per raw instruction, in order",
-		"the conversion loop is not a plain range over the parameter with an unconditional body (an instruction could be skipped, repeated or reordered)")
+	r.Check(shape, rule, key+"/loop", pos, "a single loop over the parameter that visits every index once, in order, and whose body has no branch: exactly one iteration per raw instruction",
+		"the conversion loop is not a plain loop over all elements of the parameter with an unconditional body (an instruction could be skipped, repeated or reordered)")
 	if !shape {
 		return
 	}
-	// appended element: one value
-	res := origin.NewResolver()
-	sl, ok := app.Call.Args[1].(*ssa.Slice)
-	var elem *origin.O
-	if ok {
-		if al, ok := sl.X.(*ssa.Alloc); ok {
-			if at, ok := al.Type().Underlying().(*types.Pointer).Elem().Underlying().(*types.Array); ok && at.Len() == 1 {
-				// find the store to [0]
-				for _, ref := range *al.Referrers() {
-					if ia, ok := ref.(*ssa.IndexAddr); ok {
-						for _, r2 := range *ia.Referrers() {
-							if st, ok := r2.(*ssa.Store); ok && st.Addr == ia {
-								// st.Val is *complit
-								if ld, ok := st.Val.(*ssa.UnOp); ok {
-									if cl, ok := ld.X.(*ssa.Alloc); ok {
-										elem = &origin.O{Kind: origin.KAlloc, Val: cl}
-									}
-								}
-							}
-						}
+	// the element written per iteration, and where it goes
+	var elemVal ssa.Value
+	var elemAt ssa.Instruction
+	switch x := result.(type) {
+	case *ssa.Phi:
+		// idiom A: acc starts empty and grows by append(acc, element) once per iteration
+		var app *ssa.Call
+		initOK := false
+		if x.Block() == loop.Header && len(x.Edges) == 2 {
+			for _, ed := range x.Edges {
+				switch y := ed.(type) {
+				case *ssa.MakeSlice:
+					if k, ok := flow.ConstInt(y.Len); ok && k == 0 {
+						initOK = true
+					}
+				case *ssa.Const:
+					initOK = y.IsNil()
+				case *ssa.Call:
+					if bi, ok := y.Call.Value.(*ssa.Builtin); ok && bi.Name() == "append" && y.Call.Args[0] == ssa.Value(x) && loop.Contains(y.Block()) {
+						app = y
 					}
 				}
 			}
 		}
-	}
-	if elem == nil {
-		r.Bad(rule, key+"/element", p.Pos(app.Pos()), "the loop does not append exactly one composite-literal element")
+		if !initOK || app == nil {
+			r.Bad(rule, key+"/accumulator", pos, "the accumulator does not start empty and grow by append(acc, x) per iteration")
+			return
+		}
+		if vals := appendedValues(app); len(vals) == 1 {
+			elemVal, elemAt = vals[0], app
+		}
+	case *ssa.MakeSlice:
+		// idiom B: out := make(T, len(param)); out[i] = element
+		lc, ok := flow.StripConv(x.Len).(*ssa.Call)
+		okLen := false
+		if ok {
+			bi, isB := lc.Call.Value.(*ssa.Builtin)
+			okLen = isB && bi.Name() == "len" && lc.Call.Args[0] == ssa.Value(fn.Params[0])
+		}
+		if !okLen {
+			r.Bad(rule, key+"/accumulator", pos, "the result is made with a length other than len(parameter)")
+			return
+		}
+		n := 0
+		for _, ref := range *x.Referrers() {
+			switch y := ref.(type) {
+			case *ssa.IndexAddr:
+				for _, r2 := range *y.Referrers() {
+					st, ok := r2.(*ssa.Store)
+					if !ok || st.Addr != ssa.Value(y) {
+						r.Bad(rule, key+"/accumulator", p.Pos(r2.Pos()), "an element of the result is used other than by one store per iteration")
+						return
+					}
+					n++
+					if !loop.IsIndex(y.Index) || !loop.Contains(st.Block()) {
+						r.Bad(rule, key+"/accumulator", p.Pos(st.Pos()), "an element of the result is stored at a position other than the loop's current index")
+						return
+					}
+					elemVal, elemAt = st.Val, st
+				}
+			case *ssa.Return, *ssa.DebugRef:
+			case *ssa.Call:
+				if bi, ok := y.Call.Value.(*ssa.Builtin); !ok || (bi.Name() != "len" && bi.Name() != "cap") {
+					r.Bad(rule, key+"/accumulator", p.Pos(y.Pos()), "the result slice is passed to a call before it is returned")
+					return
+				}
+			default:
+				r.Bad(rule, key+"/accumulator", p.Pos(ref.Pos()), "the result slice is used by something other than the element store and the return")
+				return
+			}
+		}
+		if n != 1 {
+			r.Bad(rule, key+"/accumulator", pos, fmt.Sprintf("%d element stores into the result, want exactly one per iteration", n))
+			return
+		}
+	default:
+		r.Bad(rule, key+"/accumulator", pos, "the result is neither a loop accumulator grown by append nor a slice made with len(parameter) and filled by index")
 		return
 	}
-	cl := elem.Val.(*ssa.Alloc)
-	st := cl.Type().Underlying().(*types.Pointer).Elem().Underlying().(*types.Struct)
+	var cl *ssa.Alloc
+	if ld, ok := elemVal.(*ssa.UnOp); ok {
+		cl, _ = ld.X.(*ssa.Alloc)
+	}
+	if cl == nil {
+		apos := pos
+		if elemAt != nil {
+			apos = p.Pos(elemAt.Pos())
+		}
+		r.Bad(rule, key+"/element", apos, "the loop does not write exactly one composite-literal element per iteration")
+		return
+	}
+	st, ok := cl.Type().Underlying().(*types.Pointer).Elem().Underlying().(*types.Struct)
+	if !ok {
+		r.Bad(rule, key+"/element", p.Pos(cl.Pos()), "the element is not a struct literal")
+		return
+	}
 	want := map[string]string{"Code": "Op", "Jt": "Jt", "Jf": "Jf", "K": "K"}
 	got := map[string]string{}
+	res := origin.NewResolver()
 	for _, ref := range *cl.Referrers() {
 		fa, ok := ref.(*ssa.FieldAddr)
 		if !ok {
 			continue
 		}
 		for _, r2 := range *fa.Referrers() {
-			if s, ok := r2.(*ssa.Store); ok && s.Addr == fa {
-				o := res.Of(s.Val, nil, s)
-				got[st.Field(fa.Field).Name()] = o.String()
-				// expected: Field(elem, want) with elem = param[idx+1]
-				w := want[st.Field(fa.Field).Name()]
-				okf := o.Kind == origin.KField && o.Field.Name() == w
-				if okf {
-					el := o.Args[0]
-					okf = el.Kind == origin.KElem && el.Args[0].Kind == origin.KParam && el.Args[0].Param == fn.Params[0] && el.Args[1].Val == idxNext && el.Args[1].Kind == origin.KRangeKey
-				}
-				r.Check(okf, rule, key+"/field/"+st.Field(fa.Field).Name(), p.Pos(s.Pos()),
-					fmt.Sprintf("%s <- %s of the ranged raw instruction", st.Field(fa.Field).Name(), w),
-					fmt.Sprintf("SockFilter.%s is filled from %s, want the %s field of the ranged raw instruction", st.Field(fa.Field).Name(), o.String(), w))
+			if s, ok := r2.(*ssa.Store); ok && s.Addr == ssa.Value(fa) {
+				name := st.Field(fa.Field).Name()
+				src, isElem := loop.ElementOf(s.Val)
+				got[name] = src
+				w := want[name]
+				r.Check(isElem && src == w, rule, key+"/field/"+name, p.Pos(s.Pos()),
+					fmt.Sprintf("%s <- %s of the raw instruction at the loop's current index", name, w),
+					fmt.Sprintf("SockFilter.%s is filled from %s, want the %s field of the raw instruction at the loop's current index", name, res.Of(s.Val, nil, s).String(), w))
 			}
 		}
 	}
@@ -742,30 +835,70 @@ func checkProbe(e *Env, m *loaderModel) {
 		"probe = seccomp(SECCOMP_SET_MODE_STRICT, flags != 0, nil): the kernel answers EINVAL without entering strict mode",
 		fmt.Sprintf("probe arguments are (%d, %d, nil=%v): with flags 0 the kernel would really enter strict mode; anything but (STRICT, non-zero, nil) is not the documented side-effect-free probe", op, fl, nilp))
 	// true only on == EINVAL
-	for _, ret := range flow.Returns(fn) {
-		cv, ok := flow.RetResults(ret)[0].(*ssa.Const)
-		if !ok {
-			r.Bad("E3.probe", "Supported/return", p.Pos(ret.Pos()), "non-constant result")
-			continue
-		}
-		if cv.Value != nil && constant.BoolVal(cv.Value) {
-			good := false
-			for _, cd := range flow.DomConds(ret.Block()) {
-				bo, ok := cd.V.(*ssa.BinOp)
-				if !ok || bo.Op != token.EQL || !cd.Pol {
-					continue
-				}
-				for _, pair := range [][2]ssa.Value{{bo.X, bo.Y}, {bo.Y, bo.X}} {
-					if pair[0] == ssa.Value(c) {
-						if k, ok := flow.ConstInt(pair[1]); ok && uint64(k) == or.Consts["EINVAL"] {
-							good = true
-						}
-					}
+	isEinval := func(bo *ssa.BinOp) bool {
+		for _, pair := range [][2]ssa.Value{{bo.X, bo.Y}, {bo.Y, bo.X}} {
+			if pair[0] == ssa.Value(c) {
+				if k, ok := flow.ConstInt(pair[1]); ok && uint64(k) == or.Consts["EINVAL"] {
+					return true
 				}
 			}
-			r.Check(good, "E3.probe", "Supported/true-on-EINVAL", p.Pos(ret.Pos()), "true only when the probe's error equals EINVAL", "Supported returns true without `err == EINVAL`")
 		}
+		return false
 	}
+	for _, ret := range flow.Returns(fn) {
+		good := trueImplies(flow.RetResults(ret)[0], ret.Block(), nil, isEinval, 0)
+		r.Check(good, "E3.probe", "Supported/true-on-EINVAL", p.Pos(ret.Pos()), "true only when the probe's error equals EINVAL", "Supported can return true without `err == EINVAL`")
+	}
+}
+
+// trueImplies: whenever the boolean v (evaluated at the end of block b, reached from the conditions conds) is true, a
+// comparison satisfying test holds.  Handles constants under dominating branches, the comparison itself, negations,
+// and phis that join such values (&&, ||, if/else assignments).
+func trueImplies(v ssa.Value, b *ssa.BasicBlock, extra []flow.Cond, test func(*ssa.BinOp) bool, depth int) bool {
+	if depth > 6 {
+		return false
+	}
+	holds := func() bool {
+		for _, cd := range append(flow.DomConds(b), extra...) {
+			c := flow.Norm(cd)
+			bo, ok := c.V.(*ssa.BinOp)
+			if !ok {
+				continue
+			}
+			if bo.Op == token.EQL && c.Pol && test(bo) {
+				return true
+			}
+			if bo.Op == token.NEQ && !c.Pol && test(bo) {
+				return true
+			}
+		}
+		return false
+	}
+	switch x := v.(type) {
+	case *ssa.Const:
+		if x.Value == nil || !constant.BoolVal(x.Value) {
+			return true // never true
+		}
+		return holds()
+	case *ssa.BinOp:
+		if x.Op == token.EQL && test(x) {
+			return true
+		}
+		return holds()
+	case *ssa.Phi:
+		for i, ed := range x.Edges {
+			pred := x.Block().Preds[i]
+			var ex []flow.Cond
+			if ifi, ok := flow.LastIf(pred); ok && len(pred.Succs) == 2 && pred.Succs[0] != pred.Succs[1] {
+				ex = append(ex, flow.Cond{V: ifi.Cond, Pol: pred.Succs[0] == x.Block(), At: ifi})
+			}
+			if !trueImplies(ed, pred, ex, test, depth+1) {
+				return false
+			}
+		}
+		return true
+	}
+	return holds()
 }
 
 // ---------------------------------------------------------------- C10
@@ -848,8 +981,8 @@ func checkSandboxFlag(e *Env, p *load.Program, rule string) {
 		return
 	}
 	res := origin.NewResolver()
-	// argument: load of a local Filter alloc
-	arg := ls[0].Call.Args[0]
+	// argument: load of a local Filter alloc (in main, or in a helper that only builds the literal)
+	arg, _ := through(ls[0].Call.Args[0], nil)
 	ld, ok := arg.(*ssa.UnOp)
 	var al *ssa.Alloc
 	if ok {
@@ -1071,66 +1204,28 @@ func resolveVariadicSyscallArgs(site *rawSite, call *ssa.Call) ([]int64, string)
 	default:
 		return nil, "variadic argument shape"
 	}
-	// wrapper side: each syscall arg is param 0, a constant, or a load of local[i] where local is
-	// written only by copy(local[:], args)
+	// wrapper side: constant propagation with the caller's constants, along the path to the system call
+	cp := newCprop(w)
+	cp.bind[w.Params[0]] = cInt(opt)
+	if variadic == nil {
+		cp.bind[w.Params[1]] = cval{kind: 3}
+	} else {
+		sv := cval{kind: 2}
+		for _, k := range variadic {
+			sv.elems = append(sv.elems, cInt(k))
+		}
+		cp.bind[w.Params[1]] = sv
+	}
+	if ok, why := cp.runTo(site.call); !ok {
+		return nil, why
+	}
 	var out []int64
 	for _, a := range site.call.Call.Args[1:] {
-		if a == ssa.Value(w.Params[0]) {
-			out = append(out, opt)
-			continue
+		v := cp.val(a)
+		if v.kind != 1 {
+			return nil, "a system call argument does not fold to a constant for this caller"
 		}
-		if k, ok := flow.ConstInt(a); ok {
-			out = append(out, k)
-			continue
-		}
-		ld, ok := a.(*ssa.UnOp)
-		if !ok || ld.Op != token.MUL {
-			return nil, "syscall argument is not a load"
-		}
-		ia, ok := ld.X.(*ssa.IndexAddr)
-		if !ok {
-			return nil, "syscall argument is not an array element"
-		}
-		al, ok := ia.X.(*ssa.Alloc)
-		idx, ok2 := flow.ConstInt(ia.Index)
-		if !ok || !ok2 {
-			return nil, "array element shape"
-		}
-		// writers of al
-		copies := 0
-		for _, ref := range *al.Referrers() {
-			switch x := ref.(type) {
-			case *ssa.IndexAddr:
-				for _, r2 := range *x.Referrers() {
-					if st, ok := r2.(*ssa.Store); ok && st.Addr == x {
-						return nil, "array element stored directly"
-					}
-				}
-			case *ssa.Slice:
-				for _, r2 := range *x.Referrers() {
-					c, ok := r2.(*ssa.Call)
-					if !ok {
-						return nil, "array slice escapes"
-					}
-					bi, ok := c.Call.Value.(*ssa.Builtin)
-					if !ok || bi.Name() != "copy" || c.Call.Args[0] != ssa.Value(x) || c.Call.Args[1] != ssa.Value(w.Params[1]) {
-						return nil, "array is written by something other than copy(local[:], args)"
-					}
-					if !flow.InstrDominates(c, site.call) {
-						return nil, "copy does not precede the system call"
-					}
-					copies++
-				}
-			}
-		}
-		if copies != 1 {
-			return nil, "expected exactly one copy into the argument array"
-		}
-		if int(idx) < len(variadic) {
-			out = append(out, variadic[idx])
-		} else {
-			out = append(out, 0)
-		}
+		out = append(out, v.i)
 	}
 	return out, ""
 }
